@@ -426,6 +426,14 @@ def cli_replay_translate(tool, pattern, path, in_impl):
             listed = os.path.join(rootd, rel) in rows
             # the reference says "ignored" iff not in_impl (the two languages differ on this path); reproduced iff the real run
             # contradicts the reference
+            if listed == in_impl and '/' in rel:
+                # below a directory that is itself ignored nothing is visited from the top: search from the entry's own directory
+                sub = os.path.dirname(os.path.join(rootd, rel))
+                p2 = subprocess.run([exe, 'path', 'from', sub, tool + 'ignore'], cwd=d, env=env, stdout=subprocess.PIPE, stderr=subprocess.PIPE, timeout=20)
+                listed2 = os.path.join(rootd, rel) in p2.stdout.decode().split('\n')[:-1]
+                if listed2 != in_impl:
+                    return True, '%s pattern %r, path %r searched from its own directory: %s by the real run ; the reference says it is %s' % (
+                        tool, pattern, rel, 'listed' if listed2 else 'omitted', 'not ignored' if in_impl else 'ignored')
             return (listed != in_impl), '%s pattern %r, path %r: %s by the real run ; the reference says it is %s' % (
                 tool, pattern, rel, 'listed' if listed else 'omitted', 'not ignored' if in_impl else 'ignored')
         finally:
